@@ -28,6 +28,8 @@ def run(chk, ctx):
         chk.require(ext == [["signals", "Iterator::map(Vec::drain(self.virtual_signals, ops::RangeFull{}), closure({closure#0}))"]], "ORG", "ORG:with_signals:virtual-appended-in-order", "signals.extend(virtual_signals.drain(..).map(..))", "virtual signals appended by %s" % ext)
     handle_io_order_rule(chk, P)
     swap_pair_rule(chk, P)
+    # with the variables swapped out, a name resolves to the device output: outputs are consulted exactly on the None edge of the variable lookup
+    get_shape_rule(chk, P)
     # the only evaluator of OutputEntryIndex::Virtual
     boi = P.body(TD + "build_output_indices")
     if chk.anchor("build_output_indices", boi):
